@@ -131,7 +131,7 @@ func c04Body(sc *WF) Verdict {
 
 func checkC04(t *testing.T, sc WF) Verdict {
 	var v Verdict
-	if f := Bubble(t, func() { v = c04Body(&sc) }); f != "" {
+	if f := Bubble(t, func() { v = c04Body(&sc) }); f != "" && !goroutinesRemain(f) {
 		return bad("C04:bubble", "%s", f)
 	}
 	return v
